@@ -950,5 +950,4 @@ def collect(kind, seeds, kw=None, procs=16):
     jobs = [(kind, s, kw or {}) for s in seeds]
     if len(jobs) < 3:
         return [_job(j) for j in jobs]
-    pool = tt.get_pool(procs)
-    return pool.map(_job, jobs, chunksize=max(1, len(jobs) // (procs * 4) or 1))
+    return tt.rmap(_job, jobs, procs, max(1, min(8, len(jobs) // (procs * 4) or 1)), timeout=600)
